@@ -23,6 +23,12 @@ def parse(text):
     return a
 
 
+def parse_plain(text):
+    """Parse here and now with a fresh lexer and parser, whatever the provenance variant."""
+    from odata_query.grammar import ODataLexer, ODataParser
+    return ODataParser().parse(ODataLexer().tokenize(text))
+
+
 _helper = None
 _HELPER_SRC = r"""
 import sys, json, pickle, base64, dataclasses
